@@ -146,6 +146,63 @@ type vsConn struct {
 	nWCalls   int64 // number of Write calls the client made (C08: must be 0 before the first message is accepted)
 	failArmed int32
 	failAfter int32
+
+	// outbound frame tracker: where in the frame stream the next Write call starts
+	tmu      sync.Mutex
+	hdrHave  int // header bytes of the current frame seen so far (0..9)
+	hdrBuf   [10]byte
+	payLeft  uint32        // payload bytes of the current frame still to be written
+	gate     chan struct{} // non-nil: the next Write that starts inside a payload parks here until released
+	gated    int32         // 1 while a Write is parked at the gate
+	active   int32         // Write calls in progress (a parked one included)
+	overlaps int64         // Write calls that started while another one was in progress: a second writer
+}
+
+// track advances the frame tracker by the bytes of one Write
+func (c *vsConn) track(p []byte) {
+	c.tmu.Lock()
+	defer c.tmu.Unlock()
+	for len(p) > 0 {
+		if c.payLeft > 0 {
+			n := uint32(len(p))
+			if n > c.payLeft {
+				n = c.payLeft
+			}
+			c.payLeft -= n
+			p = p[n:]
+			continue
+		}
+		c.hdrBuf[c.hdrHave] = p[0]
+		c.hdrHave++
+		p = p[1:]
+		if c.hdrHave == 10 {
+			c.hdrHave = 0
+			if lf := vsParseHeader(c.hdrBuf[:]).LenField; lf >= 10 {
+				c.payLeft = lf - 10
+			}
+		}
+	}
+}
+
+// enter is called at the start of every Write: counts overlapping Writes and parks a Write that
+// starts inside a payload at the gate, if one is set
+func (c *vsConn) enter() {
+	if atomic.AddInt32(&c.active, 1) > 1 {
+		atomic.AddInt64(&c.overlaps, 1)
+	}
+	c.tmu.Lock()
+	g := c.gate
+	inPayload := c.payLeft > 0
+	if g != nil && inPayload {
+		c.gate = nil
+	}
+	c.tmu.Unlock()
+	if g != nil && inPayload {
+		atomic.StoreInt32(&c.inWrite, 1)
+		atomic.StoreInt32(&c.gated, 1)
+		<-g
+		atomic.StoreInt32(&c.gated, 0)
+	}
 }
 
 func (c *vsConn) Read(p []byte) (int, error) {
@@ -158,6 +215,8 @@ func (c *vsConn) Read(p []byte) (int, error) {
 
 func (c *vsConn) Write(p []byte) (int, error) {
 	atomic.AddInt64(&c.nWCalls, 1)
+	c.enter()
+	defer atomic.AddInt32(&c.active, -1)
 	if atomic.CompareAndSwapInt32(&c.failArmed, 1, 2) {
 		k := int(atomic.LoadInt32(&c.failAfter))
 		if k > len(p) {
@@ -169,6 +228,7 @@ func (c *vsConn) Write(p []byte) (int, error) {
 			n, _ = c.Conn.Write(p[:k])
 			atomic.StoreInt32(&c.inWrite, 0)
 			atomic.AddInt64(&c.nWritten, int64(n))
+			c.track(p[:n])
 		}
 		return n, errors.New("verif: injected write failure")
 	}
@@ -178,7 +238,10 @@ func (c *vsConn) Write(p []byte) (int, error) {
 	atomic.StoreInt32(&c.inWrite, 1)
 	n, err := c.Conn.Write(p)
 	atomic.AddInt64(&c.nWritten, int64(n))
-	atomic.StoreInt32(&c.inWrite, 0)
+	c.track(p[:n])
+	if atomic.LoadInt32(&c.active) <= 1 {
+		atomic.StoreInt32(&c.inWrite, 0)
+	}
 	return n, err
 }
 
@@ -322,7 +385,8 @@ type vsStep struct {
 	} `json:"first"`
 	After    int    `json:"after"`
 	LenField *int64 `json:"lenfield"`
-	Cut      *int   `json:"cut"` // peer_send: write only the first cut bytes of the frame
+	Cut      *int   `json:"cut"`  // peer_send: write only the first cut bytes of the frame
+	Skip     *int   `json:"skip"` // peer_send: write the frame from byte skip on (the rest of a frame sent with cut=skip before)
 }
 
 type vsScript struct {
@@ -338,6 +402,10 @@ type vsCaller struct {
 	done   chan struct{}
 	cancel context.CancelFunc
 	res    vsObs
+	// the []byte SendMessage returned is kept as it is: its length and hash are computed whenever the
+	// caller is observed (wait_caller, cancel, final), i.e. possibly after later replies were delivered
+	data    []byte
+	hasData bool
 }
 
 type vsHandled struct {
@@ -367,6 +435,8 @@ type vsSess struct {
 	handled []vsHandled
 	panics  []string
 	broken  string // set when the outbound stream could not be parsed: later steps are not attempted
+	pending *vsHdr // expect_header read a header whose payload expect_rest has still to read
+	gateCh  chan struct{}
 }
 
 func vsClassify(err error) string {
@@ -546,7 +616,8 @@ func (s *vsSess) startCaller(st vsStep, shutdown bool) vsObs {
 			if err != nil {
 				cr.res = vsObs{"res": vsClassify(err)}
 			} else {
-				cr.res = vsObs{"res": "ok", "typ": int(typ), "len": len(data), "hash": vsHash(data)}
+				cr.data, cr.hasData = data, true
+				cr.res = vsObs{"res": "ok", "typ": int(typ)}
 			}
 		case "send", "SendNoWait":
 			var m Message
@@ -580,7 +651,8 @@ func (s *vsSess) startCaller(st vsStep, shutdown bool) vsObs {
 			if err != nil {
 				cr.res = vsObs{"res": "other"}
 			} else {
-				cr.res = vsObs{"res": "ok", "typ": int(resp.typ), "len": len(data), "hash": vsHash(data)}
+				cr.data, cr.hasData = data, true
+				cr.res = vsObs{"res": "ok", "typ": int(resp.typ)}
 			}
 		default:
 			cr.res = vsObs{"res": "bad-api"}
@@ -602,6 +674,10 @@ func (s *vsSess) callerState(id int) vsObs {
 		o := vsObs{}
 		for k, v := range cr.res {
 			o[k] = v
+		}
+		if cr.hasData {
+			o["len"] = len(cr.data)
+			o["hash"] = vsHash(cr.data)
 		}
 		return o
 	default:
@@ -652,6 +728,67 @@ func (s *vsSess) expectFrame() vsObs {
 	return o
 }
 
+// expect_header / expect_rest: the peer reads a frame in two parts (used with gate_payload)
+func (s *vsSess) expectHeader() vsObs {
+	if s.peer == nil {
+		return vsObs{"st": "noconn"}
+	}
+	if s.pending != nil {
+		return vsObs{"st": "header-pending"}
+	}
+	if !s.settle() {
+		return vsObs{"st": "timeout"}
+	}
+	if atomic.LoadInt32(&s.cc.inWrite) == 0 {
+		return vsObs{"st": "none"}
+	}
+	_ = s.peer.SetReadDeadline(time.Now().Add(s.limit))
+	defer s.peer.SetReadDeadline(time.Time{})
+	hb := make([]byte, 10)
+	if n, err := io.ReadFull(s.peer, hb); err != nil {
+		s.broken = "short-header"
+		return vsObs{"st": "short-header", "got": n}
+	}
+	h := vsParseHeader(hb)
+	o := vsObs{"st": "ok", "rsvd": h.Rsvd, "ver": h.Ver, "typ": h.Typ, "id": h.ID, "lenfield": h.LenField}
+	if h.LenField < 10 {
+		o["st"] = "bad-lenfield"
+		s.broken = "bad-lenfield"
+		return o
+	}
+	s.pending = &h
+	if !s.settle() {
+		o["st"] = "timeout-after"
+	}
+	return o
+}
+
+func (s *vsSess) expectRest() vsObs {
+	if s.pending == nil {
+		return vsObs{"st": "no-header"}
+	}
+	h := *s.pending
+	s.pending = nil
+	o := vsObs{"st": "ok", "rsvd": h.Rsvd, "ver": h.Ver, "typ": h.Typ, "id": h.ID, "lenfield": h.LenField}
+	_ = s.peer.SetReadDeadline(time.Now().Add(s.limit))
+	defer s.peer.SetReadDeadline(time.Time{})
+	pl := make([]byte, h.LenField-10)
+	if n, err := io.ReadFull(s.peer, pl); err != nil {
+		o["st"] = "short-payload"
+		o["got"] = n
+		s.seen = append(s.seen, o)
+		s.broken = "short-payload"
+		return o
+	}
+	o["len"] = len(pl)
+	o["hash"] = vsHash(pl)
+	s.seen = append(s.seen, o)
+	if !s.settle() {
+		o["st"] = "timeout-after"
+	}
+	return o
+}
+
 func (s *vsSess) state() vsObs {
 	o := vsObs{}
 	if s.c == nil {
@@ -669,6 +806,8 @@ func (s *vsSess) state() vsObs {
 		o["writing"] = atomic.LoadInt32(&s.cc.inWrite) == 1
 		o["wcalls"] = atomic.LoadInt64(&s.cc.nWCalls)
 		o["nwritten"] = atomic.LoadInt64(&s.cc.nWritten)
+		o["overlapping_writes"] = atomic.LoadInt64(&s.cc.overlaps)
+		o["gated"] = atomic.LoadInt32(&s.cc.gated) == 1
 	}
 	o["closed"] = atomic.LoadUint32(&s.c.isClosed) == 1
 	select {
@@ -725,6 +864,9 @@ func (s *vsSess) step(st vsStep) vsObs {
 		fr := vsBuildFrame(ver, typ, id, lf, b)
 		if st.Cut != nil && *st.Cut < len(fr) {
 			fr = fr[:*st.Cut]
+		}
+		if st.Skip != nil && *st.Skip <= len(fr) {
+			fr = fr[*st.Skip:]
 		}
 		o := s.peerSend(fr)
 		o["id"] = id
@@ -789,6 +931,35 @@ func (s *vsSess) step(st vsStep) vsObs {
 			return vsObs{"st": "timeout"}
 		}
 		return s.state()
+	case "gate_payload":
+		// the next Write of the client that starts inside a payload (i.e. the write loop's io.Copy after a
+		// header) parks until release_payload: the write loop is then stalled BETWEEN its two Writes
+		if s.cc == nil {
+			return vsObs{"st": "noconn"}
+		}
+		s.gateCh = make(chan struct{})
+		s.cc.tmu.Lock()
+		s.cc.gate = s.gateCh
+		s.cc.tmu.Unlock()
+		return vsObs{"st": "ok"}
+	case "release_payload":
+		if s.gateCh == nil {
+			return vsObs{"st": "no-gate"}
+		}
+		was := atomic.LoadInt32(&s.cc.gated) == 1
+		s.cc.tmu.Lock()
+		s.cc.gate = nil
+		s.cc.tmu.Unlock()
+		close(s.gateCh)
+		s.gateCh = nil
+		if !s.settle() {
+			return vsObs{"st": "timeout"}
+		}
+		return vsObs{"st": "ok", "was_parked": was}
+	case "expect_header":
+		return s.expectHeader()
+	case "expect_rest":
+		return s.expectRest()
 	case "write_fail":
 		if s.cc == nil {
 			return vsObs{"st": "noconn"}
@@ -815,6 +986,10 @@ func (s *vsSess) finish() vsObs {
 	fin := vsObs{}
 	if s.c != nil {
 		fin["state"] = s.state()
+	}
+	if s.gateCh != nil { // a gate left closed would keep the write loop parked during the cleanup
+		close(s.gateCh)
+		s.gateCh = nil
 	}
 	for _, cr := range s.callers {
 		cr.cancel()
@@ -1044,6 +1219,7 @@ func vsRunStress(rq vsStressReq) vsObs {
 
 	total := rq.Callers * rq.PerCaller
 	calls := make([]vsStressCall, total)
+	kept := make([][]byte, total) // what SendMessage returned, untouched until the end of the run
 	var wg sync.WaitGroup
 	ctx, cancel := context.WithTimeout(context.Background(), limit)
 	defer cancel()
@@ -1070,7 +1246,8 @@ func vsRunStress(rq vsStressReq) vsObs {
 				rt, data, err := c.SendMessage(ctx, MessageType(typ), pl)
 				cl.Res = vsClassify(err)
 				if err == nil {
-					cl.Res, cl.RTyp, cl.RLen, cl.RHash = "ok", int(rt), len(data), vsHash(data)
+					cl.Res, cl.RTyp = "ok", int(rt)
+					kept[idx] = data
 				}
 				calls[idx] = cl
 			}
@@ -1184,6 +1361,11 @@ func vsRunStress(rq vsStressReq) vsObs {
 	tmu.Lock()
 	out["trace"] = append([]vsStressFrame(nil), trace...)
 	tmu.Unlock()
+	for i := range calls { // reply bytes are looked at only now, after every later reply was delivered
+		if calls[i].Res == "ok" {
+			calls[i].RLen, calls[i].RHash = len(kept[i]), vsHash(kept[i])
+		}
+	}
 	sort.SliceStable(calls, func(i, j int) bool { return calls[i].Tag < calls[j].Tag })
 	out["calls"] = calls
 	return out
